@@ -66,6 +66,12 @@ class LowerLinalgBody(RewritePattern):
         if not isinstance(kernel_op.next_op, linalg.YieldOp):
             return
 
+        # the equivalent region computes on its block arguments in order, so that
+        # is what the operands of the kernel op have to be
+        block_args = linalg_op.body.block.args
+        if tuple(kernel_op.operands) != tuple(block_args[: len(kernel_op.operands)]):
+            return
+
         # replace linalg op
         rewriter.replace_op(
             linalg_op,
